@@ -1,0 +1,15 @@
+//go:build verif
+
+package transport_controller
+
+import "time"
+
+// VerifSetStreamTimeouts sets the stream establish (header read/write) timeout and the
+// HandleMountedStream lookup timeout, returning the previous values.
+// The verification harness shortens them for cases in which the peer stalls or no handler exists.
+// Not safe for use concurrently with HandleIncomingStream or OpenMountedStream.
+func VerifSetStreamTimeouts(establish, handle time.Duration) (prevEstablish, prevHandle time.Duration) {
+	prevEstablish, prevHandle = streamEstablishTimeout, streamHandleTimeout
+	streamEstablishTimeout, streamHandleTimeout = establish, handle
+	return prevEstablish, prevHandle
+}
